@@ -1,0 +1,7 @@
+//go:build !verif
+
+package stackage
+
+// verifPoint is a no-op unless the package is built with the `verif` tag
+// (see verif_on.go).
+func verifPoint(string, *stack) {}
